@@ -1,0 +1,6 @@
+//go:build !verif
+// +build !verif
+
+package pipc
+
+func verifPoint(site string, name string) {}
